@@ -930,7 +930,8 @@ alpha = Constant(mesh)
 heat_flux = -alpha * grad(T)
 src = sin(T) * alpha
 points = np.array([[0.1, 0.2, 0.3], [0.25, 0.25, 0.25]])
-expressions = [(heat_flux, points), (src, points), (T * T, points)]
+points2 = np.array([[0.5, 0.25, 0.125]])
+expressions = [(heat_flux, points), (src, points), (T * T, points), (heat_flux, points2)]
 """,
     "mass[p1]^2`q\\x.py": """\
 import basix.ufl
@@ -1293,6 +1294,13 @@ def pair_case(job: dict, root: Path, generated_ufl: dict) -> dict:
     names = ufd.object_names
     out["objects"] = [{"kind": "form", "name": names.get(id(f), "")} for f in forms] + \
                      [{"kind": "expression", "name": names.get(id(e[0]), "")} for e in exprs]
+    # one UFL object listed twice (the same expression at two point sets): only the first occurrence can carry the
+    # object's name, the later ones are unnamed (numbered by their position)
+    seen = set()
+    for ob in out["objects"]:
+        if ob["name"] and (ob["kind"], ob["name"]) in seen:
+            ob["name"] = ""
+        seen.add((ob["kind"], ob["name"]))
     if p.returncode != 0:
         out["cc_message"] = p.stderr[-400:]
         return out
